@@ -2,6 +2,7 @@ package nfs
 
 import (
 	"github.com/mit-pdos/go-nfsd/fh"
+	"github.com/mit-pdos/go-nfsd/fstxn"
 	"github.com/mit-pdos/go-nfsd/inode"
 	"github.com/mit-pdos/go-nfsd/nfstypes"
 	"github.com/mit-pdos/go-nfsd/verifrt"
@@ -28,7 +29,35 @@ const (
 	vMarkShrinkBegin = 100
 	vMarkShrinkEnd   = 101
 	vMarkOpBegin     = 102
+	vMarkOpEnd       = 103
 )
+
+// vLockset checks D1/D3 (C03) = lockset discipline for cached inodes (C14): every access to a field of
+// an inode object between the start and the end of the request happens while the request holds that
+// inode's lock. Returns the number of accesses checked.
+func vLockset(label string) uint64 {
+	evs := verifrt.Events()
+	start, end := 0, len(evs)
+	for i, ev := range evs {
+		if ev.Kind == verifrt.EvMark && ev.A == vMarkOpBegin {
+			start = i
+		}
+		if ev.Kind == verifrt.EvMark && ev.A == vMarkOpEnd {
+			end = i
+		}
+	}
+	var n uint64
+	for i := start; i < end; i++ {
+		ev := evs[i]
+		if ev.Kind == verifrt.EvAccess {
+			// recorded by the engine only when the access is not trivially covered: A = 1 iff the
+			// inode's number (C) is among the locks held at that moment
+			verifrt.Assert(ev.A == 1, label)
+			n++
+		}
+	}
+	return n
+}
 
 func vMonitor() vMon {
 	m := vMon{durable: true, ascending: true, twoPhase: true, relAfter: true, balanced: true}
@@ -73,7 +102,15 @@ func vMonitor() vMon {
 		case verifrt.EvAcquire:
 			m.acquires++
 			m.heldAtEnd++
-			m.ascending = m.ascending && ev.B == 1
+			// exempt from the order: an inode number this request has just obtained from the allocator.
+			// It is free, so no directory names it and no other multi-lock transaction can want it.
+			fresh := false
+			for j := start; j < i; j++ {
+				if evs[j].Kind == verifrt.EvAlloc && evs[j].A != 0 && evs[j].A == ev.A && evs[j].A%32 == 7 {
+					fresh = true
+				}
+			}
+			m.ascending = m.ascending && (ev.B == 1 || fresh)
 			m.twoPhase = m.twoPhase && ev.C == 0
 		case verifrt.EvRelease:
 			m.heldAtEnd--
@@ -254,4 +291,272 @@ func VerifC08Handles() {
 		verifrt.Assert(post.Gen == preGen, "generation-unchanged-otherwise")
 	}
 	verifrt.Cover("end")
+}
+
+// ---- the generic one-RPC step from an arbitrary valid state, with property-specific obligation groups
+// enabled by parameters (p01, p03, p06, p09, p10, p14).
+
+const (
+	pGETATTR = 1
+	pSETATTR = 2
+	pLOOKUP  = 3
+	pREAD    = 6
+	pWRITE   = 7
+	pCREATE  = 8
+	pMKDIR   = 9
+	pSYMLINK = 10
+	pREMOVE  = 12
+	pRMDIR   = 13
+	pRENAME  = 14
+	pREADDIR = 16
+	pRDPLUS  = 17
+	pCOMMIT  = 21
+	pREADLNK = 5
+)
+
+// quietInodeAt decodes inode x from the current logical disk without instantiating Inv (used for
+// post-state comparisons, where Inv must not be assumed)
+func (w *vW) quietInodeAt(x uint64) *inode.Inode {
+	w.quiet = true
+	ip := w.vInodeAt(x)
+	w.quiet = false
+	return ip
+}
+
+func vSameInode(a, b *inode.Inode) bool {
+	eq := a.Kind == b.Kind && a.Nlink == b.Nlink && a.Gen == b.Gen && a.Size == b.Size && a.ShrinkSize == b.ShrinkSize &&
+		a.Atime == b.Atime && a.Mtime == b.Mtime
+	ab, bb := a.VerifBlks(), b.VerifBlks()
+	for i := 0; i < 10; i++ {
+		eq = eq && ab[i] == bb[i]
+	}
+	return eq
+}
+
+// coherent asserts I9 for the inode numbers a request can have touched: a cached inode equals the
+// decoding of its 128 bytes on the logical disk.
+func (w *vW) coherent(label string, nums []uint64) {
+	for _, x := range nums {
+		slot := w.nfs.fsstate.Icache.LookupSlot(x)
+		if slot.Obj == nil {
+			continue
+		}
+		c := slot.Obj.(*inode.Inode)
+		d := w.quietInodeAt(x)
+		verifrt.Assert(vSameInode(c, d), label)
+	}
+}
+
+func VerifStep() {
+	w := vWorld("d")
+	w.stepHooks()
+	if verifrt.Param("p14", 0) == 1 {
+		vWatchShared()
+	} else if verifrt.Param("p03", 0) == 1 {
+		verifrt.Watch("github.com/mit-pdos/go-nfsd/inode.Inode")
+	}
+	var proc uint64
+	switch verifrt.Param("procs", 0) {
+	case 1: // data procedures
+		proc = verifrt.Choose("proc", pSETATTR, pWRITE, pREAD, pGETATTR, pCOMMIT)
+	case 2: // namespace procedures
+		proc = verifrt.Choose("proc", pCREATE, pMKDIR, pSYMLINK, pREMOVE, pRMDIR, pLOOKUP)
+	case 3:
+		proc = verifrt.Choose("proc", pRENAME)
+	case 4:
+		proc = verifrt.Choose("proc", pREADDIR, pRDPLUS, pREADLNK)
+	default:
+		proc = verifrt.Choose("proc", pSETATTR, pWRITE, pREAD, pGETATTR, pCOMMIT, pCREATE, pMKDIR, pSYMLINK, pREMOVE, pRMDIR, pLOOKUP, pRENAME, pREADDIR, pRDPLUS, pREADLNK)
+	}
+	involved := []uint64{39, 71, vChildOf(1), vChildOf(2), 1}
+	var st nfstypes.Nfsstat3
+	mutating := true
+	unstable := false
+	verifrt.Mark(vMarkOpBegin)
+	switch proc {
+	case pGETATTR, pREAD, pCOMMIT, pSETATTR, pWRITE, pREADLNK:
+		f, x, ok := w.anyFh("fh")
+		ip := w.boundInode(x, ok)
+		involved = append(involved, x)
+		switch proc {
+		case pGETATTR:
+			mutating = false
+			st = w.nfs.NFSPROC3_GETATTR(nfstypes.GETATTR3args{Object: f}).Status
+		case pREADLNK:
+			mutating = false
+			st = w.nfs.NFSPROC3_READLINK(nfstypes.READLINK3args{Symlink: f}).Status
+		case pREAD:
+			mutating = false
+			off, cnt := vOffset("off"), verifrt.U32("cnt")
+			if ip != nil {
+				bb := verifrt.Param("bbytes", 2)
+				verifrt.Assume(off >= ip.Size || uint64(cnt) <= bb || ip.Size-off <= bb)
+			}
+			st = w.nfs.NFSPROC3_READ(nfstypes.READ3args{File: f, Offset: nfstypes.Offset3(off), Count: nfstypes.Count3(cnt)}).Status
+		case pCOMMIT:
+			st = w.nfs.NFSPROC3_COMMIT(nfstypes.COMMIT3args{File: f, Offset: nfstypes.Offset3(verifrt.U64("off")), Count: nfstypes.Count3(verifrt.U32("cnt"))}).Status
+		case pSETATTR:
+			a := vSattr("a")
+			a.Size.Size = nfstypes.Size3(vOffset("size"))
+			if ip != nil {
+				bb := verifrt.Param("bblocks", 1)
+				oldb, newb := (ip.Size+4095)/4096, (uint64(a.Size.Size)+4095)/4096
+				verifrt.Assume(!a.Size.Set_it || newb >= oldb || oldb-newb <= bb || oldb-newb >= 511)
+			}
+			st = w.nfs.NFSPROC3_SETATTR(nfstypes.SETATTR3args{Object: f, New_attributes: a}).Status
+		case pWRITE:
+			n := verifrt.U64("datalen")
+			verifrt.Assume(n <= verifrt.Param("bbytes", 2))
+			off := vOffset("off")
+			verifrt.Assume(off%4096+n <= 4096)
+			stable := nfstypes.Stable_how(verifrt.Choose("stable", 2, 0, 1))
+			w.nfs.Unstable = verifrt.Choose("unstable_opt", 1, 0) == 1
+			unstable = stable == nfstypes.UNSTABLE && w.nfs.Unstable
+			st = w.nfs.NFSPROC3_WRITE(nfstypes.WRITE3args{File: f, Offset: nfstypes.Offset3(off), Count: nfstypes.Count3(n), Stable: stable, Data: verifrt.Bytes("data", n)}).Status
+		}
+	case pLOOKUP, pCREATE, pMKDIR, pSYMLINK, pREMOVE, pRMDIR, pREADDIR, pRDPLUS:
+		f, x, ok := w.anyFh("dir")
+		w.boundInode(x, ok)
+		involved = append(involved, x)
+		name := w.vName("n")
+		switch proc {
+		case pLOOKUP:
+			mutating = false
+			st = w.nfs.NFSPROC3_LOOKUP(nfstypes.LOOKUP3args{What: nfstypes.Diropargs3{Dir: f, Name: name}}).Status
+		case pCREATE:
+			st = w.nfs.NFSPROC3_CREATE(nfstypes.CREATE3args{Where: nfstypes.Diropargs3{Dir: f, Name: name}, How: nfstypes.Createhow3{Mode: nfstypes.Createmode3(verifrt.Choose("how", 0, 2))}}).Status
+		case pMKDIR:
+			st = w.nfs.NFSPROC3_MKDIR(nfstypes.MKDIR3args{Where: nfstypes.Diropargs3{Dir: f, Name: name}}).Status
+		case pSYMLINK:
+			st = w.nfs.NFSPROC3_SYMLINK(nfstypes.SYMLINK3args{Where: nfstypes.Diropargs3{Dir: f, Name: name}, Symlink: nfstypes.Symlinkdata3{Symlink_data: nfstypes.Nfspath3(verifrt.String("tgt", 2))}}).Status
+		case pREMOVE:
+			st = w.nfs.NFSPROC3_REMOVE(nfstypes.REMOVE3args{Object: nfstypes.Diropargs3{Dir: f, Name: name}}).Status
+		case pRMDIR:
+			st = w.nfs.NFSPROC3_RMDIR(nfstypes.RMDIR3args{Object: nfstypes.Diropargs3{Dir: f, Name: name}}).Status
+		case pREADDIR:
+			mutating = false
+			st = w.nfs.NFSPROC3_READDIR(nfstypes.READDIR3args{Dir: f, Cookie: nfstypes.Cookie3(verifrt.Choose("cookie", 0, 128, 256, 384)), Count: nfstypes.Count3(verifrt.U32("count"))}).Status
+		case pRDPLUS:
+			mutating = false
+			st = w.nfs.NFSPROC3_READDIRPLUS(nfstypes.READDIRPLUS3args{Dir: f, Cookie: nfstypes.Cookie3(verifrt.Choose("cookie", 0, 128, 256, 384)),
+				Dircount: nfstypes.Count3(verifrt.U32("dircount")), Maxcount: nfstypes.Count3(verifrt.U32("maxcount"))}).Status
+		}
+	case pRENAME:
+		from, x1, ok1 := w.anyFh("from")
+		w.boundInode(x1, ok1)
+		to, x2 := from, x1
+		if verifrt.Choose("samedir", 1, 0) == 0 {
+			var ok2 bool
+			to, x2, ok2 = w.anyFh("to")
+			w.boundInode(x2, ok2)
+		}
+		involved = append(involved, x1, x2)
+		st = w.nfs.NFSPROC3_RENAME(nfstypes.RENAME3args{From: nfstypes.Diropargs3{Dir: from, Name: w.vName("fn")}, To: nfstypes.Diropargs3{Dir: to, Name: w.vName("tn")}}).Status
+	}
+	verifrt.Mark(vMarkOpEnd)
+	m := vMonitor()
+	ok := st == nfstypes.NFS3_OK
+	if verifrt.Param("p14", 0) == 1 || verifrt.Param("p03", 0) == 1 {
+		vLockset("mon:inode-accessed-only-under-its-lock")
+	}
+	if ok {
+		verifrt.Cover("ok")
+	} else {
+		verifrt.Cover("err")
+	}
+	verifrt.Assert(m.heldAtEnd == 0, "mon:locks-released")
+	if verifrt.Param("p01", 0) == 1 {
+		verifrt.Assert(m.appends <= 1, "mon:one-journal-transaction-per-rpc")
+		verifrt.Assert(m.rawWrites == 0, "mon:no-write-bypasses-the-journal")
+		verifrt.Assert(!ok || unstable || m.durable, "mon:durable-before-ok-reply")
+		verifrt.Assert(mutating || m.appends == 0 || proc == pREAD || proc == pREADLNK || proc == pLOOKUP || proc == pREADDIR || proc == pRDPLUS, "mon:read-only-procedures-append-nothing")
+	}
+	if verifrt.Param("p09", 0) == 1 && !ok {
+		verifrt.Assert(m.appends == 0, "mon:failed-rpc-appends-nothing")
+		verifrt.Assert(m.balanced, "mon:failed-rpc-returns-its-allocations")
+		verifrt.Assert(m.spawned == 0, "mon:failed-rpc-starts-no-background-work")
+		w.coherent("failed-rpc-leaves-cached-inodes-equal-to-disk", involved)
+	}
+	if verifrt.Param("p10", 0) == 1 {
+		w.coherent("cached-inode-equals-disk", involved)
+	}
+	if verifrt.Param("p06", 0) == 1 {
+		verifrt.AssertK(m.ascending, "mon:locks-acquired-in-ascending-order", "KF-apply-lock-order", proc == pRDPLUS)
+	}
+	if verifrt.Param("p03", 0) == 1 {
+		verifrt.AssertK(m.twoPhase, "mon:no-lock-acquired-after-a-release", "KF-apply-early-release", proc == pRDPLUS)
+	}
+}
+
+// VerifC06LockInodes: the real lockInodes on 2..4 symbolic inode numbers (possibly equal): locks are
+// taken in strictly ascending order, none twice, and the result lists the inodes in argument order.
+func VerifC06LockInodes() {
+	w := vWorld("d")
+	n := verifrt.Choose("n", 2, 3, 4)
+	inums := make([]uint64, n)
+	for i := range inums {
+		inums[i] = w.vInum("x")
+		verifrt.Assume(inums[i] >= 1)
+	}
+	op := fstxn.Begin(w.nfs.fsstate)
+	verifrt.Mark(vMarkOpBegin)
+	inodes := lockInodes(op, inums)
+	m := vMonitor()
+	verifrt.Assert(m.ascending, "mon:lockinodes-ascending")
+	if inodes != nil {
+		for i := range inums {
+			verifrt.Assert(inodes[i] != nil && inodes[i].Inum == inums[i], "result-in-argument-order")
+		}
+		verifrt.Cover("locked")
+	} else {
+		verifrt.Assert(m.heldAtEnd == 0, "mon:abort-releases-all")
+		verifrt.Cover("aborted")
+	}
+}
+
+func vWatchShared() {
+	verifrt.Watch("github.com/mit-pdos/go-nfsd/inode.Inode")
+	verifrt.Watch("github.com/mit-pdos/go-nfsd/shrinker.ShrinkerSt|mu|nthread,crash")
+	verifrt.Watch("github.com/mit-pdos/go-nfsd/cache.Cache|mu|entries,lru,cnt")
+	verifrt.Watch("github.com/mit-pdos/go-nfsd/util/stats.Op|atomic|count,nanos")
+	verifrt.Watch("github.com/mit-pdos/go-journal/alloc.Alloc|mu|next,bitmap")
+}
+
+func vNoUnprotected(label string) {
+	for _, ev := range verifrt.Events() {
+		if ev.Kind == verifrt.EvAccess {
+			verifrt.Assert(ev.A == 1, label)
+		}
+	}
+}
+
+// VerifC14Background: the background shrinker thread, shutdown/crash and the statistics code access
+// shared state only under the protection that orders it with its writers (lockset discipline).
+func VerifC14Background() {
+	w := vWorld("d")
+	w.stepHooks()
+	vWatchShared()
+	_, x := w.vLive("f", nfstypes.NF3REG)
+	ip := w.boundInode(x, true)
+	verifrt.Assume(ip.ShrinkSize-(ip.Size+4095)/4096 <= 1)
+	switch verifrt.Choose("scenario", 0, 1, 2) {
+	case 0:
+		// a shrinker thread is started and runs to completion, then the server shuts down
+		w.nfs.shrinkst.StartShrinker(x)
+		verifrt.Assert(verifrt.NumSpawned() == 1, "mon:shrinker-spawned")
+		verifrt.RunSpawned()
+		w.nfs.shrinkst.Shutdown()
+		verifrt.Cover("shrinker")
+	case 1:
+		// crash while no shrinker is running
+		w.nfs.shrinkst.Crash()
+		verifrt.Cover("crash")
+	case 2:
+		// statistics: recorded by a request, reset by the administrator
+		w.nfs.NFSPROC3_GETATTR(nfstypes.GETATTR3args{Object: fh.MkRootFh3()})
+		w.nfs.ResetOpStats()
+		verifrt.Cover("stats")
+	}
+	vNoUnprotected("mon:shared-state-accessed-only-under-its-protection")
+	verifrt.Assert(verifrt.AccessCount() > 0, "mon:monitor-saw-accesses")
 }
